@@ -382,7 +382,7 @@ def driver(seed, count):
             r = rng.random()
             if r < 0.06:        # damage one digit
                 k = rng.randrange(len(s))
-                s = s[:k] + rng.choice('289GgZ.-+ ,') + s[k + 1:]
+                s = s[:k] + rng.choice('289GgZ.-+ ,:;<=>?@[`_/') + s[k + 1:]
             elif r < 0.09:
                 s = s + rng.choice('0123456789ABCDEF') * (11 - len(s))
             a0 = N(int(s)) if s.isdigit() and s[0] != '0' and rng.random() < 0.4 else T(s)
